@@ -110,6 +110,88 @@ def correspondence(ck, extra_args=(), name=COMP, timeout=1500):
     return stats
 
 
+def _coq_case(case, expected):
+    """One `Goal verdict false cfg trace = expected.` for the vm_compute cross-check."""
+    head, _, trace = case.partition("#")
+    t = head.split()
+    n = lambda x: "%d" % int(x, 16)
+    salt = n(t[2])
+    reqs = []
+    i = 3
+    while i < len(t):
+        if t[i] == "q":
+            tmo = int(t[i + 2], 16)
+            reqs.append("mk_rcfg %s %s %s" % (n(t[i + 1]), "(Some %d)" % tmo if tmo else "None", n(t[i + 3])))
+            i += 6
+        else:
+            i += 3
+    ev = []
+    tt = trace.split()
+    i = 0
+    envs = {"p": "EEnv Partition", "h": "EEnv Hold", "l": "EEnv Release", "r": "EEnv Repair", "hz": "EHorizon"}
+    one = {"st": "EStart", "cn": "EConn", "ex": "EExec", "dn": "EDone"}
+    fates = {"c": "SynClean", "h": "SynHeld", "d": "SynDropped"}
+    while i < len(tt):
+        at, k = n(tt[i]), tt[i + 1]
+        if k in envs:
+            ev.append("(%s, %s)" % (at, envs[k])); i += 2
+        elif k in one:
+            ev.append("(%s, %s %s)" % (at, one[k], n(tt[i + 2]))); i += 3
+        elif k == "sy":
+            ev.append("(%s, ESyn %s %s)" % (at, n(tt[i + 2]), fates[tt[i + 3]])); i += 4
+        elif k == "en":
+            r = tt[i + 3]
+            res = ("(ROk %s)" % n(r[3:])) if r.startswith("ok:") else {"ce": "RConnErr", "to": "RTimeout"}.get(r, "RPanic")
+            ev.append("(%s, EEnd %s %s)" % (at, n(tt[i + 2]), res)); i += 4
+        else:
+            raise ValueError(k)
+    if expected.startswith("reject "):
+        exp = "inr %s" % n(expected.split()[1])
+    else:
+        toks = expected.split()
+        outs = {"conn-err": "OConnErr", "timeout": "OTimeout", "pending": "OPending", "panic": "OPanic"}
+        items = []
+        for j in range(0, len(toks), 2):
+            o = toks[j]
+            o = ("OOk %s" % n(o[3:])) if o.startswith("ok:") else outs[o]
+            items.append("(%s, %s)" % (o, n(toks[j + 1][1:])))
+        exp = "inl [%s]" % "; ".join(items)
+    return ("Goal verdict false (mk_cfg %s [%s]) [%s] = %s. Proof. vm_compute. reflexivity. Qed."
+            % (salt, "; ".join(reqs), "; ".join(ev), exp))
+
+
+def cross_check(ck, name, k=80):
+    """Extraction is not trusted blindly: a sample of the cases is re-evaluated by vm_compute inside Coq and
+    must give the line the extracted OCaml model printed."""
+    d = os.path.join(ck.work, name)
+    try:
+        cases = open(os.path.join(d, COMP + ".cases")).read().splitlines()
+        model = open(os.path.join(d, COMP + ".model")).read().splitlines()
+    except OSError:
+        return
+    if not cases or len(cases) != len(model):
+        return
+    step = max(1, len(cases) // k)
+    goals = []
+    for idx in range(0, len(cases), step):
+        try:
+            goals.append(_coq_case(cases[idx], model[idx]))
+        except (ValueError, KeyError, IndexError):
+            continue
+    vf = os.path.join(ck.work, "XCheckC14.v")
+    with open(vf, "w") as f:
+        f.write("From Coq Require Import NArith List.\nRequire Import DC.RpcLife.\nImport ListNotations.\n"
+                "Open Scope N_scope.\n" + "\n".join(goals) + "\n")
+    rc, out = V.sh(["coqc", "-Q", os.path.join(V.COQ, "rpclife"), "DC", vf], cwd=ck.work, timeout=900)
+    if rc != 0:
+        ck.broken_correspondence("rpclife-extraction", "extracted model and vm_compute disagree (or the sample no "
+                                 "longer type-checks): " + out[-1200:], [])
+    else:
+        ck.notes.append("extraction cross-check: %d sampled cases re-evaluated with vm_compute inside Coq; all equal "
+                        "to the extracted model's output" % len(goals))
+    ck.log("extraction cross-check: %d cases, coqc rc=%d" % (len(goals), rc))
+
+
 def run(ck):
     ck.proof_leg("rpclife", "Properties/C14.v")
     ok, out = V.build_model("rpclife")
@@ -128,6 +210,8 @@ def run(ck):
         for f in V.corpus_files("C14") if not ck.replay else []:
             correspondence(ck, extra_args=["--replay", f], name="rpclife-corpus")
         stats = correspondence(ck)
+        if stats:
+            cross_check(ck, COMP)
     # coverage warnings: a branch of the automaton that no run reached is said so
     if stats and not ck.replay:
         c = stats.get("counters", {})
@@ -159,6 +243,12 @@ def run(ck):
             "with the `simulation` feature requests on one Channel are serialised by LazyClient's mutex, so HTTP/2 stream "
             "multiplexing on one connection is exercised only on the server side (two channels = two connections)",
             "simulated time is observed at 1 ms granularity; bounds are stated with a slack of one tick",
+            "two situations in which a call fails with a connection error although the link is up at that moment are "
+            "allowed by C14, were observed, and are admitted by the automaton (counted as conn_err_on_established_connection / "
+            "conn_err_after_clean_syn): (i) net/client.rs calls SendRequest::send_request without awaiting readiness, so the "
+            "call issued in the same instant in which another call on that channel was abandoned by its timeout gets hyper's "
+            "'connection was not ready'; (ii) turmoil's listener can sit behind stale SYNs of abandoned connect attempts, so a "
+            "SYN sent on a healthy link after earlier faults may stay unanswered until the 2 s bound",
             "a request without a timeout may stay pending for ever once a fault occurred (C14_no_deadline_may_pend); "
             "this is the documented behaviour (simulation-tests: network_timeout_after_init)",
         ],
